@@ -101,3 +101,177 @@ def validate_traces(scratch, prog, trace_lines, name, timeout=1800):
         raise MachineryError("ViewTrace produced no summary for %s:\n%s" % (name, res.out[-3000:]))
     os.remove(tf)
     return res, mism, summary[0]
+
+
+# ------------------------------------------------------------------------------------------------
+# behaviours: TLC generates (ViewGen), the real code replays, TLC validates (ViewTrace)
+# ------------------------------------------------------------------------------------------------
+import random
+
+
+def harvest(scratch, prog, tier_budget=400):
+    """Run the enumeration driver with a small budget; return {(t, ps): {"ok": [bufs], "other": [bufs]}}.
+    Used only to pick *seed inputs* for behaviours (no verdict is derived here)."""
+    from .c01 import jobs_for
+    jobs = jobs_for(prog, "quick", tier_budget)
+    lines, text, err = run_enum_jobs(scratch, prog, jobs, tag="_h")
+    if not isinstance(lines, list):
+        return None, text, (lines, err)
+    out = {}
+    for l in lines:
+        d = json.loads(l)
+        cur = []
+        ok, other = [], []
+        for ev in d["ev"]:
+            cur = [] if ev["n"] < 0 else cur[: ev["n"]] + [ev["b"]]
+            vok = ev["o"][0][2]
+            (ok if vok == 1 else other).append(list(cur))
+        out[(d["t"], tuple(d["ps"]))] = {"ok": ok, "other": other}
+    return out, text, None
+
+
+def generate(scratch, prog, t, ps, seeds, targets, actions, depth, num, seed, name):
+    d = scratch.sub("gen_" + name)
+    gf = os.path.join(d, "gen.json")
+    with open(gf, "w") as f:
+        json.dump({"prog": view_prog.tlc_prog(prog), "t": t, "ps": list(ps), "seeds": seeds,
+                   "targets": [{"path": g["path"], "st": g["st"], "w": g["w"], "extra": g["extra"]} for g in targets],
+                   "actions": actions, "depth": depth}, f, separators=(",", ":"))
+    mod = os.path.join(d, "ViewGenRun.tla")
+    with open(mod, "w") as f:
+        f.write("---- MODULE ViewGenRun ----\nEXTENDS ViewGen\n====\n")
+    cfg = os.path.join(d, "ViewGenRun.cfg")
+    write_cfg(cfg, spec="Spec")
+    res = run_tlc(mod, cfg, lib_areas=("view",), workers=1, simulate=num, depth=2 * depth + 4, seed=seed,
+                  env={"GEN_FILE": gf}, timeout=900, heap="2g")
+    hists = [h for h in res.printed_json() if isinstance(h, list)]
+    return res, hists
+
+
+def replay(scratch, prog, structs, traces, name, san=False):
+    """structs: [{"t", "targets"}]; traces: [(struct index, ps, hist)].  Returns list of trace JSON lines."""
+    d = scratch.sub("rp_" + name)
+    hp, text, errors = compile_program(prog, d)
+    if hp is None:
+        return None, text, errors
+    cmd = os.path.join(d, "cmds.txt")
+    with open(cmd, "w") as f:
+        for si, ps, hist in traces:
+            tg = structs[si]["targets"]
+            f.write("T %d %d %s\n" % (si, len(ps), " ".join(str(x) for x in ps)))
+            for ev in hist:
+                if ev["e"] == "mem":
+                    b = ev["bytes"]
+                    f.write("M %d %s %d %d %d %d\n" % (len(b), " ".join(str(x) for x in b), ev["a"][0], ev["a"][1], ev["b"][0], ev["b"][1]))
+                elif ev["e"] == "wr":
+                    wid = next(k for k, g in enumerate(tg) if g["path"] == list(ev["path"]))
+                    f.write("W %d %d %d\n" % (ev["win"], wid, ev["x"]))
+                elif ev["e"] == "eq":
+                    f.write("E\n")
+                elif ev["e"] == "cp":
+                    f.write("C %d\n" % ev["dst"])
+    exe = os.path.join(d, "driver")
+    src = os.path.join(d, "driver.cc")
+    with_eq = True
+    with open(src, "w") as f:
+        f.write(view_driver.gen_replay_driver(prog, os.path.basename(hp), structs, with_equals=True))
+    rc, out = cpp.build(src, exe, includes=[d], san=san, opt="-O1")
+    build_note = None
+    if rc != 0:
+        first_err = out
+        with open(src, "w") as f:
+            f.write(view_driver.gen_replay_driver(prog, os.path.basename(hp), structs, with_equals=False))
+        rc, out = cpp.build(src, exe, includes=[d], san=san, opt="-O1")
+        if rc != 0:
+            return "BUILD_FAILED", text, first_err
+        build_note = first_err
+        with_eq = False
+    outp = os.path.join(d, "trace.ndjson")
+    e = dict(os.environ)
+    e["ASAN_OPTIONS"] = "detect_leaks=0:exitcode=66"
+    e["UBSAN_OPTIONS"] = "print_stacktrace=1:halt_on_error=1:exitcode=67"
+    p = subprocess.run([exe, cmd, outp], stdout=subprocess.PIPE, stderr=subprocess.PIPE, text=True, timeout=1800, env=e, errors="replace")
+    if p.returncode != 0:
+        return "RUN_FAILED", text, (p.returncode, p.stderr[-4000:])
+    with open(outp) as f:
+        lines = [l for l in f.read().split("\n") if l]
+    os.remove(exe)
+    return lines, text, build_note
+
+
+def flip_bit(buf, i):
+    b = list(buf)
+    b[i // 8] ^= 1 << (i % 8)
+    return b
+
+
+def seeds_for(bufs, mode, rng, limit=24):
+    """Seed allocations (mem + two windows) for behaviours.  mode 'single': both windows = whole mem.
+    mode 'pair': equal / one-bit-different / padding-different / different-length / truncated / overlapping."""
+    ok, other = bufs["ok"], bufs["other"]
+    seeds = []
+
+    def S(b, a, w2):
+        seeds.append({"bytes": list(b), "a": list(a), "b": list(w2)})
+    if mode == "single":
+        pick = ok[:3] + rng.sample(ok, min(len(ok), 8)) + other[-3:] + rng.sample(other, min(len(other), 4))
+        for b in pick:
+            S(b, [0, len(b)], [0, len(b)])
+            if b:
+                S([255] * len(b), [0, len(b)], [0, len(b)])
+                S([0] * len(b), [0, len(b)], [0, len(b)])
+        return seeds[:limit]
+    pick = ok[:2] + rng.sample(ok, min(len(ok), 6))
+    for b in pick:
+        n = len(b)
+        S(b + b, [0, n], [n, n])                                  # equal
+        if n:
+            S(b + flip_bit(b, rng.randrange(8 * n)), [0, n], [n, n])  # one bit differs (covered or not)
+        S(b + [1] + b + [2], [0, n + 1], [n + 1, n + 1])          # trailing bytes differ (never covered)
+        S(b + b + [9, 9], [0, n], [n, n + 2])                     # different lengths
+        if n:
+            S(b + b[:-1], [0, n], [n, n - 1])                     # one truncated
+        c = rng.choice(ok)
+        S(b + c, [0, n], [n, len(c)])                             # two unrelated Ok buffers
+        for sh in (1, 2):                                         # overlapping windows of one allocation
+            if n > sh:
+                S(b + b[-sh:], [0, n], [sh, n])
+    for b in other[-2:]:
+        n = len(b)
+        S(b + b, [0, n], [n, n])
+    rng.shuffle(seeds)
+    return seeds[:limit]
+
+
+def behaviour_traces(scratch, prog, mode, actions, nbeh, depth, seed, tag):
+    """harvest -> generate -> replay.  Returns (lines, text, note, structs, gen_results) or (status, text, detail, None, None)."""
+    hv, text, err = harvest(scratch, prog, 300)
+    if hv is None:
+        return None, text, err, None, None
+    rng = random.Random(seed * 7919 + len(text))
+    structs, traces, gens = [], [], []
+    jobs = []
+    for (t, ps), bufs in sorted(hv.items()):
+        si = next((k for k, s in enumerate(structs) if s["t"] == t), None)
+        if si is None:
+            structs.append({"t": t, "targets": view_driver.write_targets(prog, t)})
+            si = len(structs) - 1
+        seeds = seeds_for(bufs, mode, rng)
+        if not seeds or (not structs[si]["targets"] and actions == ["wr"]):
+            continue
+        jobs.append((si, t, ps, seeds))
+
+    def gen(job):
+        si, t, ps, seeds = job
+        res, hists = generate(scratch, prog, t, ps, seeds, structs[si]["targets"], actions, depth, nbeh, seed + si,
+                              "%s_%s_%s_%s" % (tag, prog.name, t, "_".join(str(x).replace("-", "m") for x in ps)))
+        return si, ps, res, hists
+    from .common import run_parallel
+    for si, ps, res, hists in run_parallel([(lambda j=j: gen(j)) for j in jobs], nproc=4):
+        gens.append(res)
+        for h in hists:
+            traces.append((si, list(ps), h))
+    if not traces:
+        return [], text, None, structs, gens
+    lines, text, note = replay(scratch, prog, structs, traces, tag + "_" + prog.name)
+    return lines, text, note, structs, gens
